@@ -34,6 +34,8 @@ pub fn t4() -> Op {
             ColSpec::new("K", Ty::I16).key(),
             ColSpec::new("R", Ty::Str(8)).nullable().range(0, 9),
             ColSpec::new("E", Ty::I16).nullable().enums(&["1", "2"]).category("Integer"),
+            // a declared range wider than the column's storage
+            ColSpec::new("W", Ty::I16).nullable().range(0, 100000),
         ],
     }
 }
@@ -84,6 +86,9 @@ pub fn dml_explorations(tier: Tier) -> Vec<(&'static str, Vec<Op>, usize)> {
         upd("T1", vec![("K", i(1)), ("K", i(7))], Some(eq("K", i(2)))),
         // the empty string through update
         upd("T1", vec![("S", s(""))], Some(eq("K", i(1)))),
+        // a batch that must be refused as a whole: its last row repeats the key
+        // of its first row; its rows carry one new and one existing string
+        ins("T1", vec![vec![i(7), s("n1")], vec![i(8), s("a")], vec![i(7), s("n3")]]),
     ];
     let t2_ops = vec![
         t2(),
@@ -116,8 +121,11 @@ pub fn dml_explorations(tier: Tier) -> Vec<(&'static str, Vec<Op>, usize)> {
     ];
     let t4_ops = vec![
         t4(),
-        ins("T4", vec![vec![i(1), s("r"), i(1)], vec![i(2), Val::Null, Val::Null]]),
-        ins("T4", vec![vec![i(3), s(""), i(2)]]),
+        ins("T4", vec![vec![i(1), s("r"), i(1), i(5)], vec![i(2), Val::Null, Val::Null, Val::Null]]),
+        ins("T4", vec![vec![i(3), s(""), i(2), i(32767)]]),
+        ins("T4", vec![vec![i(4), Val::Null, Val::Null, i(70000)]]),
+        ins("T4", vec![vec![i(5), Val::Null, Val::Null, i(32768)]]),
+        upd("T4", vec![("W", i(65541))], Some(eq("K", i(1)))),
         upd("T4", vec![("R", s("q")), ("E", i(2))], Some(eq("E", Val::Null))),
         upd("T4", vec![("K", i(9))], Some(eq("R", s("r")))),
         del("T4", Some(eq("E", i(1)))),
@@ -195,9 +203,10 @@ pub fn invalid_menu() -> Vec<Op> {
         ins("T1", vec![vec![i(1), s("z")], vec![i(1), s("z")]]),
         // a value of the wrong kind that lies inside a range / enumeration declared
         // on a column of the other kind
-        ins("T4", vec![vec![i(5), i(5), Val::Null]]),
-        ins("T4", vec![vec![i(5), Val::Null, s("1")]]),
-        ins("T4", vec![vec![i(5), s("ok"), i(2)], vec![i(6), i(3), Val::Null]]),
+        ins("T4", vec![vec![i(5), i(5), Val::Null, Val::Null]]),
+        ins("T4", vec![vec![i(5), Val::Null, s("1"), Val::Null]]),
+        ins("T4", vec![vec![i(5), s("ok"), i(2), Val::Null], vec![i(6), i(3), Val::Null, Val::Null]]),
+        ins("T4", vec![vec![i(5), s("ok"), i(2), i(1)], vec![i(6), Val::Null, Val::Null, i(40000)]]),
         upd("T4", vec![("R", i(5))], None),
         upd("T4", vec![("E", s("1"))], None),
         upd("T4", vec![("E", i(1)), ("R", i(0))], Some(eq("K", i(1)))),
@@ -292,7 +301,9 @@ fn finish_e1_multi(cfgs: Vec<(String, Config)>, mut rep: Report, rule: &str) -> 
         rep.set("exhaustive", !any_cap);
     }
     rep.set("rule", rule.to_string());
-    if audit_fail > 0 {
+    if audit_fail > 0 && rep.violations.is_empty() {
+        // (with violations present the audits are meaningless: states behind a
+        // violation are not expanded)
         eprintln!("MACHINERY: state key audit failed");
         let _ = rep.finish();
         return 2;
@@ -434,6 +445,22 @@ pub fn run_c08(tier: Tier) -> i32 {
     ];
     let template = Config { alphabet: sharing, max_depth: if tier.thorough() { 9 } else { 6 }, seed: None, setup: vec![], probes: vec![], stream_names: vec![], ..cfgs[0].1 };
     cfgs.push(("catalog-and-cross-table-string-sharing".to_string(), template));
+    // text in code pages other than UTF-8: encoded lengths differ from UTF-8 lengths
+    let cp_ops = vec![
+        t1(),
+        ins("T1", vec![vec![i(1), s("\u{e9}t\u{e9}")]]),
+        Op::SetDbCodepage(1252),
+        ins("T1", vec![vec![i(2), s("caf\u{e9}")], vec![i(3), s("z")]]),
+        Op::SetDbCodepage(932),
+        ins("T1", vec![vec![i(4), s("\u{3042}\u{3042}")]]),
+        Op::SetDbCodepage(65001),
+        upd("T1", vec![("S", s("\u{e9}"))], Some(eq("K", i(3)))),
+        del("T1", Some(eq("K", i(1)))),
+        Op::Reopen,
+        Op::Flush,
+    ];
+    let template = Config { alphabet: cp_ops, max_depth: if tier.thorough() { 8 } else { 6 }, seed: None, setup: vec![], probes: vec![], stream_names: vec![], ..cfgs[0].1 };
+    cfgs.push(("database-code-pages".to_string(), template));
     finish_e1_multi(cfgs, rep, "the bytes saved after every prefix of every explored sequence, in all three close modes, are decoded by the independent decoder: whole rows of the dictated widths, offset-binary integers, live references, catalog = existing tables with columns 1..n, refcount(entry) = referring cells in all tables, unused entries empty, no live empty entry; decoded rows = model rows. distinct_nontrivial = distinct states")
 }
 
@@ -515,6 +542,8 @@ pub fn stream_names(tier: Tier) -> Vec<String> {
         "00".into(),
         "\u{3800}".into(),
         "x".into(),
+        "1".into(),
+        "\u{4801}".into(),
         "/x".into(),
         "\u{e9}".into(),
         "\u{c9}".into(),
@@ -526,7 +555,7 @@ pub fn stream_names(tier: Tier) -> Vec<String> {
     if tier.thorough() {
         v.extend(
             [
-                "\u{4801}",
+                "\u{483f}",
                 "x/",
                 "y/../x",
                 "\u{5}DigitalSignature",
